@@ -965,6 +965,18 @@ class Molecule(nx.Graph):
         super().remove_node(node)
         self._remove_interactions_with_node(node)
 
+    def clear(self):
+        """
+        Overriding :meth:`networkx.Graph.clear`, removes all atoms and bonds
+        and the interactions that describe them.
+        """
+        super().clear()
+        # networkx also calls this on a molecule that is being created, before
+        # it has interactions.
+        interactions = getattr(self, 'interactions', None)
+        if interactions is not None:
+            interactions.clear()
+
     def remove_nodes_from(self, nodes):
         """
         Overriding the remove_nodes_from method of networkx
